@@ -8,7 +8,7 @@ import re
 
 from ..astutil import attr_chain, call_attr, calls_in, unparse, walk_local
 from ..report import Finding, Report
-from ..srcindex import AnalysisError, ClassInfo, Index
+from ..srcindex import AnalysisError, ClassInfo, Index, raw_funcs
 
 ATTR = "xdsl.ir.core.Attribute"
 MUTABLE_HEADS = {"list", "dict", "set", "bytearray", "List", "Dict", "Set", "MutableSequence", "MutableMapping", "MutableSet", "defaultdict", "deque"}
@@ -138,7 +138,7 @@ def check(idx: Index, rep: Report, tier: str) -> str:
     r4 = rep.rule("C08.R4", "a function that creates and returns an Attribute subclass is memoised at module level (same parameters -> same class, independently of any Context)", floor=1)
     n_fact = 0
     for mi in idx.modules.values():
-        for f in mi.functions.values():
+        for f in raw_funcs(mi):
             inner = [n for n in f.node.body if isinstance(n, ast.ClassDef)]
             if not inner:
                 continue
